@@ -191,4 +191,87 @@ theorem esdtTransfer_refund_accepted (env : Env) (c : Call) (ctx : Ctx) (tok amt
   exact ⟨_, _, rfl, rfl, ha1⟩
 
 
+/-! ### "a refund is never rejected" (ESDTNFTTransfer) -/
+
+/-- the credit of a return-after-error call on the NFT path: no payability question, no gate; it succeeds when the
+    destination's entry under the payload's key is empty or decodes, carries — if it carries metadata at all — the
+    payload's hash (C08: every copy of an NFT has the same metadata), and the merged entry's encoding fits -/
+theorem addNFTToDestination_rae_accepts (env : Env) (dst tk : Bytes) (t cur : Token) (m : MetaData) (tv cv : Int)
+    (ctx : Ctx) (hnf : ctx.failAt = none) (hmd : t.md = some m)
+    (hcur : tokenOf (ctx.accts.read dst (nftKey tk m.nonce)) = some cur)
+    (hhash : ∀ cm, cur.md = some cm → cm.hash = m.hash)
+    (htv : t.value = some tv) (hcv : cur.value = some cv) (hpos : 0 < tv + cv)
+    (hlen : (encToken { t with value := some (tv + cv) }).length < two63) :
+    ∃ ctx', addNFTToDestination env dst t tk false true ctx = .ok ({ t with value := some (tv + cv) }, ctx') ∧
+      ctx'.failAt = none ∧
+      ctx'.accts = ctx.accts.write dst (nftKey tk m.nonce) (encToken { t with value := some (tv + cv) }) := by
+  obtain ⟨ty, val, props, md, res⟩ := t
+  simp only at hmd htv hlen ⊢
+  subst hmd; subst htv
+  have hread : (ctx.accts.get dst).store.get (nftKey tk m.nonce) = ctx.accts.read dst (nftKey tk m.nonce) := rfl
+  have hle : ¬ (tv + cv ≤ 0) := by omega
+  -- the lookup
+  have hget : ∃ c1, getNFTOnDestination dst tk m.nonce ctx = .ok ((cur, decide (ctx.accts.read dst (nftKey tk m.nonce) = [])), c1) ∧
+      c1.failAt = none ∧ c1.accts = ctx.accts := by
+    unfold getNFTOnDestination
+    unfold tokenOf at hcur
+    by_cases hraw : ctx.accts.read dst (nftKey tk m.nonce) = []
+    · rw [if_pos hraw] at hcur
+      cases hcur
+      simp only [Esdt.readKey, Bind.bind, M.bind, hread, hraw, if_true, Pure.pure, M.pure, decide_true]
+      exact ⟨_, rfl, hnf, rfl⟩
+    · rw [if_neg hraw] at hcur
+      simp only [Esdt.readKey, Bind.bind, M.bind, hread, hraw, if_false, unmarshalToken, Esdt.tick, hnf, hcur, Pure.pure,
+        M.pure, List.length_cons, reduceCtorEq, decide_false]
+      exact ⟨_, rfl, rfl, rfl⟩
+  obtain ⟨c1, h1, hnf1, ha1⟩ := hget
+  -- the hash comparison
+  have hsame : checkSameHash cur ⟨ty, some tv, props, some m, res⟩ c1 = .ok ((), c1) := by
+    unfold checkSameHash
+    cases hc : cur.md with
+    | none => rfl
+    | some cm =>
+      simp only [Esdt.guardE, hhash cm hc, ne_eq, not_true_eq_false, decide_false, Bool.false_eq_true, if_false,
+        Pure.pure, M.pure]
+  unfold addNFTToDestination saveNFT checkFrozeAndPause verifyPayableIf
+  simp only [Bind.bind, M.bind, h1, hsame, Pure.pure, M.pure, Bool.false_eq_true, if_false, if_true, deref,
+    hcv, hle, marshalToken, Esdt.tick, hnf1, hlen, Esdt.writeKey, List.length_cons, reduceCtorEq, ha1]
+  exact ⟨_, rfl, rfl, rfl⟩
+
+/-- the refund of an ESDTNFTTransfer (callback call type, return-after-error flag, the four transfer arguments of the
+    message that was refused, executed on the origin shard) succeeds whenever the payload decodes to an entry with metadata
+    and a positive quantity, the origin's slot under that key is empty or decodes, and — if the origin still holds pieces
+    — their hash is the payload's.  The last two are what the world invariants give (C15 `Canon`, C08 `UMdInv`); the
+    size bound is the physical one (Go slices). -/
+theorem esdtNFTTransfer_refund_accepted (env : Env) (c : Call) (ctx : Ctx) (tok nb qb payload : Bytes)
+    (hct : c.callType = 2) (hrae : c.rae = true) (hargs : c.args = [tok, nb, qb, payload]) (hval : c.callValue = 0)
+    (hne : c.caller ≠ c.rcv)
+    (hsnd : present env.nshards env.self c.caller = false) (hdst : present env.nshards env.self c.rcv = true)
+    (hnf : ctx.failAt = none)
+    (t cur : Token) (m : MetaData) (tv cv : Int) (hdec : decToken payload = some t) (hmd : t.md = some m)
+    (hcur : tokenOf (ctx.accts.read c.rcv (nftKey (esdtKeyPrefix ++ tok) m.nonce)) = some cur)
+    (hhash : ∀ cm, cur.md = some cm → cm.hash = m.hash)
+    (htv : t.value = some tv) (hcv : cur.value = some cv) (hpos : 0 < tv + cv)
+    (hlen : (encToken { t with value := some (tv + cv) }).length < two63) :
+    ∃ out ctx', esdtNFTTransfer env c ctx = .ok (out, ctx') ∧ out.rc = 0 ∧
+      ctx'.accts = ctx.accts.write c.rcv (nftKey (esdtKeyPrefix ++ tok) m.nonce)
+        (encToken { t with value := some (tv + cv) }) := by
+  have hmv : mustVerifyPayable c 4 = false := by simp [mustVerifyPayable, hct]
+  obtain ⟨ty, val, props, md, res⟩ := t
+  simp only at hmd htv hlen ⊢
+  subst hmd; subst htv
+  -- decoding the payload counts one dependency call
+  have hun : unmarshalToken payload ctx = .ok (⟨ty, some tv, props, some m, res⟩, { ctx with deps := Dep.u :: ctx.deps }) := by
+    simp only [unmarshalToken, Esdt.tick, hnf, Bind.bind, M.bind, hdec, Pure.pure, M.pure, List.length_cons, reduceCtorEq]
+    rfl
+  obtain ⟨c2, h2, _, ha2⟩ := addNFTToDestination_rae_accepts env c.rcv (esdtKeyPrefix ++ tok)
+    ⟨ty, some tv, props, some m, res⟩ cur m tv cv
+    { ctx with deps := Dep.u :: ctx.deps } hnf rfl hcur hhash rfl hcv hpos hlen
+  unfold esdtNFTTransfer checkBasic
+  simp only [hsnd, hdst, hval, hargs, hmv, hne, Esdt.guardE, Esdt.argAt, deref, Bind.bind, M.bind, Pure.pure, M.pure,
+    List.length_cons, List.length_nil, List.getElem?_cons_zero, List.getElem?_cons_succ, ne_eq, not_true_eq_false,
+    decide_false, Bool.false_eq_true, if_false, if_true, Nat.reduceAdd, Nat.reduceLT, reduceCtorEq, decide_true, hrae,
+    hun, h2, Bool.and_false, gt_iff_lt, Nat.lt_irrefl, Bool.not_false, Bool.not_true, and_self, Bool.false_and]
+  exact ⟨_, _, rfl, rfl, ha2⟩
+
 end Esdt
